@@ -224,7 +224,7 @@ package types
 //@ func ValidateRequestContextUpdating
 //@ vars types.ValidateRequestContextUpdating: providers=[]github.com/cosmos/cosmos-sdk/types.AccAddress#0 serviceFeeCap=github.com/cosmos/cosmos-sdk/types.Coins#0 timeout=int64#0 repeatedFrequency=uint64#0 repeatedTotal=int64#1 err=error#0 err=error#1
 //@ props C09 C10 C18
-//@ ensures err == NoErr ==> timeout >= 0 && repeatedTotal >= -1 && len(providers) <= 10 &&
+//@ ensures accepted_updates_have_a_nonnegative_timeout_at_most_ten_providers_and_a_sane_cadence: err == NoErr ==> timeout >= 0 && repeatedTotal >= -1 && len(providers) <= 10 &&
 //@      (timeout != 0 && repeatedFrequency != 0 ==> repeatedFrequency >= timeout)
 
 //@ func ValidateProvidersCanEmpty
@@ -279,7 +279,7 @@ package types
 //@ func ValidateRequest
 //@ vars types.ValidateRequest: serviceName=string#0 serviceFeeCap=github.com/cosmos/cosmos-sdk/types.Coins#0 providers=[]github.com/cosmos/cosmos-sdk/types.AccAddress#0 input=string#1 timeout=int64#0 repeated=bool#0 repeatedFrequency=uint64#0 repeatedTotal=int64#1 err=error#0 err=error#1 err=error#2 err=error#3
 //@ props C10 C09 C18
-//@ ensures err == NoErr ==> timeout > 0 && len(providers) > 0 && len(providers) <= 10 && (repeated ==> (repeatedFrequency == 0 || repeatedFrequency >= timeout) && (repeatedTotal == -1 || repeatedTotal >= 1))
+//@ ensures accepted_requests_have_a_positive_timeout_one_to_ten_providers_and_a_sane_cadence: err == NoErr ==> timeout > 0 && len(providers) > 0 && len(providers) <= 10 && (repeated ==> (repeatedFrequency == 0 || repeatedFrequency >= timeout) && (repeatedTotal == -1 || repeatedTotal >= 1))
 
 // ---------------------------------------------------------------- genesis validation (C19)
 //@ func ValidateGenesis
